@@ -227,14 +227,66 @@ func init() {
 		Floor: 18,
 		Doc:   "for every segment.Data.Read call the returned slice is used only where the call's error is known to be nil (dominated by the nil edge of its error test): a failed storage read can never be indexed or decoded",
 		Run: func(c *Ctx, scope string, r *Report) {
+			// read wrappers: in-package functions that hand a Data.Read (slice, error) pair straight back to
+			// their caller; their call sites carry the same obligation as a direct read
+			wrappers := map[*ssa.Function]bool{}
+			for changed := true; changed; {
+				changed = false
+				for _, fn := range c.srcFns {
+					if wrappers[fn] {
+						continue
+					}
+					for _, b := range fn.Blocks {
+						ret, ok := b.Instrs[len(b.Instrs)-1].(*ssa.Return)
+						if !ok || len(ret.Results) != 2 {
+							continue
+						}
+						e0, ok0 := ret.Results[0].(*ssa.Extract)
+						e1, ok1 := ret.Results[1].(*ssa.Extract)
+						if !ok0 || !ok1 || e0.Tuple != e1.Tuple || e0.Index != 0 || e1.Index != 1 {
+							continue
+						}
+						if call, ok := e0.Tuple.(*ssa.Call); ok && (isDataRead(&call.Call) || call.Call.StaticCallee() != nil && wrappers[call.Call.StaticCallee()]) {
+							wrappers[fn] = true
+							changed = true
+						}
+					}
+				}
+			}
+			isRead := func(call *ssa.Call) bool {
+				if isDataRead(&call.Call) {
+					return true
+				}
+				sc := call.Call.StaticCallee()
+				return sc != nil && wrappers[sc]
+			}
 			for _, fn := range c.srcFns {
 				for _, b := range fn.Blocks {
 					for _, ins := range b.Instrs {
 						call, ok := ins.(*ssa.Call)
-						if !ok || !isDataRead(&call.Call) {
+						if !ok || !isRead(call) {
 							continue
 						}
 						key := fnName(fn) + "/Data.Read"
+						// the (slice, err) pair is returned as is: the obligation moves to the callers (wrapper)
+						if wrappers[fn] {
+							if p := tupleParts(call); p[0] != nil && p[1] != nil {
+								onlyRet := true
+								for _, ex := range []*ssa.Extract{p[0], p[1]} {
+									for _, ref := range *ex.Referrers() {
+										if _, isRet := ref.(*ssa.Return); !isRet {
+											if _, isDbg := ref.(*ssa.DebugRef); !isDbg {
+												onlyRet = false
+											}
+										}
+									}
+								}
+								if onlyRet {
+									r.ok(key, fnName(fn), c.pos(call.Pos()), "slice and error are returned together to the caller, which carries the obligation")
+									continue
+								}
+							}
+						}
 						parts := tupleParts(call)
 						data, errv := parts[0], parts[1]
 						if data == nil {
